@@ -211,6 +211,8 @@ def run(chk):
             for q in pts:
                 node_max[q] = float(rng.choice([12000.0, 26000.0, 41000.0])) if q != pts[0] else 12000.0
                 ent.append([node_max[q], [list(q)]])
+            if wi % 2 == 1:
+                ent = ent[1:] + ent[:1]      # the value for the corners written *after* the listed points: it must not touch them
             f["max depth"] = ent
         else:
             f["max depth"] = corner_max
@@ -219,6 +221,8 @@ def run(chk):
             for q in pts:
                 node_min[q] = float(rng.choice([1000.0, 6000.0, 9000.0]))
                 ent.append([node_min[q], [list(q)]])
+            if wi % 2 == 1:
+                ent = ent[1:] + ent[:1]
             f["min depth"] = ent
         elif corner_min > 0 or rng.random() < 0.5:
             f["min depth"] = corner_min
